@@ -152,3 +152,27 @@ def random_hermitian_fermion_terms(rng, n_orb, restricted=True, scale=1.0, two_b
                     t = ((so(p, s1), 1), (so(r, s2), 1), (so(s_, s2), 0), (so(q, s1), 0))
                     add(t, 0.5 * (complex(g[p, q, r, s_]) if cplx else float(g[p, q, r, s_])))
     return terms
+
+
+def symmetry_operator_terms(n_orb):
+    """Term dictionaries (interleaved spin-orbital labels) of N, Sz and S^2 = S_- S_+ + Sz^2 + Sz written from the definitions."""
+    N, Sz, S2 = {}, {}, {}
+
+    def add(d, t, c):
+        d[t] = d.get(t, 0) + c
+    for i in range(n_orb):
+        a, b = 2 * i, 2 * i + 1
+        add(N, ((a, 1), (a, 0)), 1.0)
+        add(N, ((b, 1), (b, 0)), 1.0)
+        add(Sz, ((a, 1), (a, 0)), 0.5)
+        add(Sz, ((b, 1), (b, 0)), -0.5)
+    # S_- S_+ = sum_ij a+_{i beta} a_{i alpha} a+_{j alpha} a_{j beta}
+    for i in range(n_orb):
+        for j in range(n_orb):
+            add(S2, ((2 * i + 1, 1), (2 * i, 0), (2 * j, 1), (2 * j + 1, 0)), 1.0)
+    # Sz^2 + Sz
+    for t1, c1 in Sz.items():
+        add(S2, t1, c1)
+        for t2, c2 in Sz.items():
+            add(S2, t1 + t2, c1 * c2)
+    return N, Sz, S2
